@@ -150,13 +150,14 @@ func registerC02() {
 func c02Opts(rng *lib.Rand, idx uint64) lib.GenOpts {
 	ft := lib.FileTypes[idx%uint64(len(lib.FileTypes))].Type
 	o := lib.GenOpts{
-		FileType:  ft,
-		Records:   6 + rng.Intn(14),
-		Locals:    1 + rng.Intn(4),
-		Redefine:  12,
-		Narrow:    15,
-		BigEndian: 50,
-		Unknown:   30,
+		FileType:      ft,
+		Records:       6 + rng.Intn(14),
+		Locals:        1 + rng.Intn(4),
+		Redefine:      12,
+		Narrow:        15,
+		BigEndian:     50,
+		Unknown:       30,
+		ZeroFieldDefs: 3,
 	}
 	// Draw mostly from what the container hosts, sometimes from everything.
 	if !rng.Chance(1, 5) {
@@ -325,5 +326,11 @@ func compatibleDef(pf *ref.PField, f ref.FieldDef) bool {
 	if db.Code == pb.Code {
 		return size == pb.Size
 	}
-	return db.Integer && pb.Integer && db.Signed == pb.Signed && db.Size < pb.Size && size == db.Size
+	if size != db.Size {
+		return false
+	}
+	if lib.UnsignedLike(db) && lib.UnsignedLike(pb) && db.Size <= pb.Size {
+		return true
+	}
+	return db.Integer && pb.Integer && db.Signed && pb.Signed && db.Size < pb.Size
 }
